@@ -1,6 +1,8 @@
 package main
 
 import (
+	"runtime/pprof"
+	"time"
 	"flag"
 	"fmt"
 	"os"
@@ -25,6 +27,15 @@ func main() {
 	os.Setenv("GOPROXY", "off")
 	os.Setenv("GOTOOLCHAIN", "local")
 	os.Setenv("GOSUMDB", "off")
+	if pf := os.Getenv("GOVC_PROF"); pf != "" {
+		f, _ := os.Create(pf)
+		pprof.StartCPUProfile(f)
+		go func() {
+			time.Sleep(120 * time.Second)
+			pprof.StopCPUProfile()
+			f.Close()
+		}()
+	}
 	switch os.Args[1] {
 	case "vc":
 		cmdVC(os.Args[2:])
